@@ -211,24 +211,31 @@ def optionState (parsed : Abstract) : PResult OptState :=
     | .ok () => .ok (opts.foldl applyOption { mask := mask0 })
   | none => .ok { mask := mask0 }
 
-/-- request-type defaults, anchors and the regex flag, before the pattern is taken apart -/
-def maskBeforePattern (parsed : Abstract) (st : OptState) : Mask :=
+/-- request-type defaults: the option mask with the positive types, the network types when a network
+    type is negated, and the defaults when no type is named -/
+def typeStage (st : OptState) : Mask :=
   let pos := st.pos
   let neg := st.neg
   let allTypes : List Nat := FROM_ALL_TYPES
   let netTypes : List Nat := FROM_NETWORK_TYPES
   let mask := st.mask ||| pos
   let mask := if !has mask IS_REMOVEPARAM && hasAny neg netTypes then mask ||| maskOf netTypes else mask
-  let mask := if !hasAny pos allTypes then
-      (if has mask IS_REMOVEPARAM then mask ||| maskOf [FROM_DOCUMENT, FROM_SUBDOCUMENT, FROM_XMLHTTPREQUEST]
-       else mask ||| maskOf netTypes)
-    else mask
+  if !hasAny pos allTypes then
+    (if has mask IS_REMOVEPARAM then mask ||| maskOf [FROM_DOCUMENT, FROM_SUBDOCUMENT, FROM_XMLHTTPREQUEST]
+     else mask ||| maskOf netTypes)
+  else mask
+
+/-- anchors and the regex flag -/
+def anchorStage (parsed : Abstract) (mask : Mask) : Mask :=
   let mask := match parsed.la with
     | some .double => setBit mask IS_HOSTNAME_ANCHOR true
     | some .single => setBit mask IS_LEFT_ANCHOR true
     | none => mask
   let mask := if parsed.ra then setBit mask IS_RIGHT_ANCHOR true else mask
   setBit mask IS_REGEX (checkIsRegex parsed.pattern)
+
+/-- request-type defaults, anchors and the regex flag, before the pattern is taken apart -/
+def maskBeforePattern (parsed : Abstract) (st : OptState) : Mask := anchorStage parsed (typeStage st)
 
 /-- `/re/` spellings become complete regexes; `match-case` is only allowed on those -/
 def markComplete (mask : Mask) (pattern : Str) : PResult Mask :=
